@@ -391,6 +391,24 @@ var weirdOps = []string{"", "equal", "EQUAL", "Equal ", "Eq", "==", "BitsSet\x00
 var Defects = []string{"default", "nogroups", "unknown-name", "unknown-condname", "dup-name", "mixed", "argument", "operation",
 	"dup-condname-ok", "empty-conds-ok", "alias-dup"}
 
+// foreignName returns a name that is a syscall in some other table of the library but not in this one
+// ("socketcall" or "_llseek" for x86_64, "open" for aarch64): unknown for the policy's architecture all the same.
+func foreignName(r *rand.Rand, archName string) string {
+	own := ArchInfo(archName).SyscallNames
+	for t := 0; t < 40; t++ {
+		other := TableArches[r.Intn(len(TableArches))]
+		if other == archName {
+			continue
+		}
+		names := TableNames(other)
+		n := names[r.Intn(len(names))]
+		if _, found := own[n]; !found {
+			return n
+		}
+	}
+	return "no_such_call"
+}
+
 // Inject applies one defect at a random position; it returns false if the policy has no place for it.
 func Inject(r *rand.Rand, p *Policy, defect string) bool {
 	table := TableNames(p.Arch)
@@ -436,6 +454,9 @@ func Inject(r *rand.Rand, p *Policy, defect string) bool {
 		g := &p.Groups[gi]
 		pos := r.Intn(len(g.Names) + 1)
 		name := weirdNames[r.Intn(len(weirdNames))]
+		if r.Intn(2) == 0 {
+			name = foreignName(r, p.Arch)
+		}
 		if _, found := ArchInfo(p.Arch).SyscallNames[name]; found {
 			return false
 		}
@@ -447,6 +468,9 @@ func Inject(r *rand.Rand, p *Policy, defect string) bool {
 		gi := r.Intn(len(p.Groups))
 		g := &p.Groups[gi]
 		name := weirdNames[r.Intn(len(weirdNames))]
+		if r.Intn(2) == 0 {
+			name = foreignName(r, p.Arch)
+		}
 		if _, found := ArchInfo(p.Arch).SyscallNames[name]; found {
 			return false
 		}
@@ -461,8 +485,38 @@ func Inject(r *rand.Rand, p *Policy, defect string) bool {
 			return false
 		}
 		g := &p.Groups[idx[r.Intn(len(idx))]]
+		if len(g.Names) <= 32 && r.Intn(3) == 0 {
+			// a long list (beyond what a quadratic search would be kept for)
+			have := map[string]bool{}
+			for _, n := range g.Names {
+				have[n] = true
+			}
+			for _, nc := range g.WithConds {
+				have[nc.Name] = true
+			}
+			grown := append([]string{}, g.Names...)
+			want := 33 + r.Intn(40)
+			for _, n := range distinctNames(r, table, want+len(have)) {
+				if len(grown) >= want {
+					break
+				}
+				if !have[n] {
+					grown = append(grown, n)
+				}
+			}
+			g.Names = grown
+		}
 		n := g.Names[r.Intn(len(g.Names))]
-		pos := r.Intn(len(g.Names) + 1)
+		if k := r.Intn(3); k > 0 {
+			// the name with the highest (lowest) number of the list
+			nums := ArchInfo(p.Arch).SyscallNames
+			for _, x := range g.Names {
+				if k == 1 && nums[x] > nums[n] || k == 2 && nums[x] < nums[n] {
+					n = x
+				}
+			}
+		}
+		pos := []int{0, len(g.Names), r.Intn(len(g.Names) + 1)}[r.Intn(3)]
 		names := append([]string{}, g.Names[:pos]...)
 		names = append(names, n)
 		g.Names = append(names, g.Names[pos:]...)
